@@ -58,7 +58,7 @@ def _transform(root: str, kind: str) -> None:
                     tree = ast.parse(open(p, encoding="utf-8").read())
                     _rename_locals(tree, opaque=(kind == "rename-opaque"))
                     open(p, "w", encoding="utf-8").write(ast.unparse(tree) + "\n")
-    elif kind in ("swap-if-else", "flip-compare", "sort-kwargs", "temp-return", "drop-else-after-jump", "expand-augassign", "split-and", "add-logging", "annotate-assign"):
+    elif kind in ("swap-if-else", "flip-compare", "sort-kwargs", "temp-return", "drop-else-after-jump", "expand-augassign", "split-and", "add-logging", "annotate-assign", "collect-kwargs"):
         for dp, dn, fn in os.walk(os.path.join(root, PKG)):
             for f in fn:
                 if f.endswith(".py"):
@@ -104,7 +104,9 @@ class _Refactor(_ast.NodeTransformer):
         return node
 
     def visit_FunctionDef(self, node):
+        self.fdepth = getattr(self, "fdepth", 0) + 1
         self.generic_visit(node)
+        self.fdepth -= 1
         if self.kind == "add-logging":
             i = 1 if node.body and isinstance(node.body[0], _ast.Expr) and isinstance(node.body[0].value, _ast.Constant) and isinstance(node.body[0].value.value, str) else 0
             if i == 0:
@@ -170,6 +172,17 @@ class _Refactor(_ast.NodeTransformer):
                 inner = _ast.copy_location(_ast.If(test=st.test.values[1], body=st.body, orelse=[]), st)
                 out.append(_ast.copy_location(_ast.If(test=st.test.values[0], body=[inner], orelse=[]), st))
                 continue
+            if self.kind == "collect-kwargs" and getattr(self, "fdepth", 0) > 0 and isinstance(st, (_ast.Return, _ast.Assign, _ast.Expr)) and isinstance(st.value, _ast.Call):
+                # f(a, k1=x, k2=y)  ->  kw_N = dict(k1=x, k2=y); f(a, **kw_N)
+                c = st.value
+                named = [k for k in c.keywords if k.arg is not None]
+                if len(named) >= 2 and len(named) == len(c.keywords) and not any(isinstance(x, (_ast.Call, _ast.Await, _ast.NamedExpr, _ast.Starred)) for a in c.args for x in _ast.walk(a)) and not any(isinstance(x, (_ast.Call, _ast.Await, _ast.NamedExpr)) for x in _ast.walk(c.func)):
+                    self.k += 1
+                    nm = f"kw_{self.k}"
+                    out.append(_ast.Assign(targets=[_ast.Name(id=nm, ctx=_ast.Store())], value=_ast.Call(func=_ast.Name(id="dict", ctx=_ast.Load()), args=[], keywords=named), lineno=st.lineno))
+                    c.keywords = [_ast.keyword(arg=None, value=_ast.Name(id=nm, ctx=_ast.Load()))]
+                out.append(st)
+                continue
             if self.kind == "temp-return" and isinstance(st, _ast.Return) and isinstance(st.value, _ast.Call):
                 self.k += 1
                 nm = f"ret_{self.k}"
@@ -181,7 +194,7 @@ class _Refactor(_ast.NodeTransformer):
 
     def generic_visit(self, node):
         super().generic_visit(node)
-        if self.kind in ("temp-return", "drop-else-after-jump", "split-and"):
+        if self.kind in ("temp-return", "drop-else-after-jump", "split-and", "collect-kwargs"):
             for fld in ("body", "orelse", "finalbody"):
                 b = getattr(node, fld, None)
                 if isinstance(b, list) and b and isinstance(b[0], _ast.stmt):
